@@ -4,9 +4,11 @@
 //! P lines  `c09spec once|full …`      the protocol's reference receiver (lean/EdpVerif/Spec/Frag.lean) on the real outputs
 //! X lines                              property failures the harness itself observes on the real assembler
 //!
-//! Failure classes: `gen` (default), `c09-isolation`, `c09-pending-count`, `c09-limit-complete` (none expected to fire) and the
-//! genuine defects of /repo: `kf-c09-ascending-order`, `kf-c09-count-above-vec-limit`, `kf-c09-cleanup-never-called`,
-//! `kf-c09-conflicting-header-count`.
+//! Failure classes: `gen` (default), `c09-isolation`, `c09-pending-count`, `c09-limit-complete`, `c09-conflicting-header`,
+//! `c09-cleanup-not-called`, `c09-frame-expiry` (none expected to fire) and the one recorded defect of /repo that the
+//! repository's own tests pin: `kf-c09-ascending-order`. (The former `kf-c09-count-above-vec-limit`,
+//! `kf-c09-cleanup-never-called`, `kf-c09-conflicting-header-count` are repaired — 7a903d6, f40d0e7, e936302 — and their
+//! witnesses are corpus cases that must pass.)
 use crate::canon::hex;
 use crate::Ctx;
 use edp_client::fragmentation::FragmentAssembler;
@@ -20,6 +22,8 @@ enum Op {
     Cleanup,
     Count,
     Clear,
+    /// what `Connection::receive_message` does per received frame: `cleanup_expired()`, then (for a fragment frame) the operation
+    Frame(Option<Box<Op>>),
     /// timed mode only: let real time pass (one gap); not an assembler operation
     Sleep,
 }
@@ -133,6 +137,46 @@ fn exec(mode: Mode, ops: &[Op]) -> Result<Option<Run>, ()> {
                     }
                     words.push(format!("c:{}", now));
                     outs.push(Out::Removed(k));
+                }
+                Op::Frame(inner) => {
+                    if mode == Mode::Zero {
+                        let t = Instant::now();
+                        while t.elapsed() < Duration::from_micros(2) {}
+                    }
+                    let t0 = Instant::now();
+                    asm.cleanup_expired();
+                    let t1 = Instant::now();
+                    if mode == Mode::Timed {
+                        for (l, before, after) in &touches {
+                            if now - l == 0 {
+                                if t1.duration_since(*before) >= Duration::from_millis(TIMED_TIMEOUT_MS) {
+                                    ok = false;
+                                }
+                            } else if t0.duration_since(*after) <= Duration::from_millis(TIMED_TIMEOUT_MS) {
+                                ok = false;
+                            }
+                        }
+                    }
+                    match inner.as_deref() {
+                        Some(Op::Start { seq, fid, cache, data }) => {
+                            let t0 = Instant::now();
+                            let r = asm.start_fragment(*seq, *fid, cache.clone(), data.clone());
+                            touches.push((now, t0, Instant::now()));
+                            words.push(format!("fs:{}:{}:{}:{}:={}", now, seq, fid, optarg(cache), hex(data)));
+                            outs.push(Out::Bytes(r));
+                        }
+                        Some(Op::Add { seq, fid, data }) => {
+                            let t0 = Instant::now();
+                            let r = asm.add_fragment(*seq, *fid, data.clone());
+                            touches.push((now, t0, Instant::now()));
+                            words.push(format!("fa:{}:{}:{}:={}", now, seq, fid, hex(data)));
+                            outs.push(Out::Bytes(r));
+                        }
+                        _ => {
+                            words.push(format!("ft:{}", now));
+                            outs.push(Out::Bytes(None));
+                        }
+                    }
                 }
                 Op::Count => {
                     words.push("p".to_string());
@@ -259,6 +303,15 @@ fn single(ctx: &mut Ctx, tag: &str, s: &Seq, arrival: &[Arr]) {
         ctx.count("order_sensitive_cases");
     }
     ctx.prop(class, &format!("c09spec full {}", body), "ok");
+}
+
+/// (sequence id, fragment id) of a fragment operation, also when it arrives as a connection frame
+fn frag_of(o: &Op) -> Option<(u64, u64)> {
+    match o {
+        Op::Start { seq, fid, .. } | Op::Add { seq, fid, .. } => Some((*seq, *fid)),
+        Op::Frame(Some(inner)) => frag_of(inner),
+        _ => None,
+    }
 }
 
 fn permutations(n: u64) -> Vec<Vec<u64>> {
@@ -475,6 +528,24 @@ fn interleaved(ctx: &mut Ctx, tag: &str) {
         }
     }
     ops.push(Op::Count);
+    // one run in four as a connection sees it: every operation is a received frame (expiry first), ticks in between
+    let framed = ctx.rng.chance(1, 4);
+    if framed {
+        ctx.count("il_as_connection_frames");
+        let mut f: Vec<Op> = Vec::new();
+        for o in ops.drain(..) {
+            match o {
+                Op::Start { .. } | Op::Add { .. } => f.push(Op::Frame(Some(Box::new(o)))),
+                Op::Cleanup => f.push(Op::Frame(None)),
+                other => f.push(other),
+            }
+            if ctx.rng.chance(1, 8) {
+                f.push(Op::Frame(None));
+            }
+        }
+        f.push(Op::Count); // the last output stays the final `pending_count`
+        ops = f;
+    }
     ctx.count(&format!("il_sequences_{}", k));
     ctx.count(if mode == Mode::Zero { "il_mode_zero_timeout" } else { "il_mode_no_expiry" });
     let Some(outs) = tie(ctx, tag, mode, &ops) else { return };
@@ -482,12 +553,7 @@ fn interleaved(ctx: &mut Ctx, tag: &str) {
     // isolation: what a sequence returns is what it returns when fed alone
     if mode == Mode::Huge && !has_clear {
         for s in &seqs {
-            let mine: Vec<usize> = (0..ops.len())
-                .filter(|i| match &ops[*i] {
-                    Op::Start { seq, .. } | Op::Add { seq, .. } => *seq == s.id,
-                    _ => false,
-                })
-                .collect();
+            let mine: Vec<usize> = (0..ops.len()).filter(|i| frag_of(&ops[*i]).map(|(q, _)| q == s.id).unwrap_or(false)).collect();
             let alone: Vec<Op> = mine.iter().map(|i| ops[*i].clone()).collect();
             if let Ok(Some(r)) = exec(Mode::Huge, &alone) {
                 let together: Vec<Out> = mine.iter().map(|i| outs[*i].clone()).collect();
@@ -502,11 +568,8 @@ fn interleaved(ctx: &mut Ctx, tag: &str) {
     if clean && mode == Mode::Huge {
         let mut seen: BTreeMap<u64, BTreeSet<u64>> = BTreeMap::new();
         for o in &ops {
-            match o {
-                Op::Start { seq, fid, .. } | Op::Add { seq, fid, .. } => {
-                    seen.entry(*seq).or_default().insert(*fid);
-                }
-                _ => {}
+            if let Some((seq, fid)) = frag_of(o) {
+                seen.entry(seq).or_default().insert(fid);
             }
         }
         let expect = seqs
@@ -521,10 +584,7 @@ fn interleaved(ctx: &mut Ctx, tag: &str) {
         for s in &seqs {
             let complete = seen.get(&s.id).map(|f| f.len() as u64 == s.n()).unwrap_or(false);
             let returned = (0..ops.len())
-                .filter(|i| match (&ops[*i], &outs[*i]) {
-                    (Op::Start { seq, .. }, Out::Bytes(Some(_))) | (Op::Add { seq, .. }, Out::Bytes(Some(_))) => *seq == s.id,
-                    _ => false,
-                })
+                .filter(|i| matches!(&outs[*i], Out::Bytes(Some(_))) && frag_of(&ops[*i]).map(|(q, _)| q == s.id).unwrap_or(false))
                 .count();
             if returned != complete as usize {
                 ctx.fail("gen", &format!("sequence {} complete={} but returned {} times", s.id, complete, returned));
@@ -591,62 +651,202 @@ fn boundaries(ctx: &mut Ctx) {
     ctx.count("medium_full_sequence");
 }
 
-/// full-size runs on the real assembler only (too long for a line): the limit itself and the counts above it
+/// How a full-size sequence is delivered to the real assembler.
+#[derive(Clone, Copy, Debug, PartialEq)]
+enum BigOrder {
+    /// header (id n), then n-1 … 1
+    Protocol,
+    /// continuations 1 … n-1 first (buffered before the header), the header last
+    HeaderLast,
+    /// a random permutation, every 1000th arrival delivered twice (the copy carries other data), two junk ids
+    Shuffled,
+}
+
+/// full-size runs on the real assembler only (too long for a line, and the model's association list is quadratic there):
+/// the vector limit itself and the counts above it, which since 7a903d6 go through the pending map. The harness is its own
+/// oracle here: returned exactly once, at the arrival of the last missing id, the bytes by ascending id (the order the
+/// repository's tests pin; the protocol's order is the recorded finding), nothing held afterwards.
 fn big_runs(ctx: &mut Ctx) {
-    let mut counts = vec![100_000u64, 100_001];
+    let mut cases: Vec<(u64, BigOrder)> = vec![
+        (100_000, BigOrder::Protocol),
+        (100_000, BigOrder::Shuffled),
+        (100_001, BigOrder::Protocol),
+        (100_001, BigOrder::HeaderLast),
+        (100_001, BigOrder::Shuffled),
+        (100_003, BigOrder::Shuffled),
+    ];
     if ctx.thorough {
-        counts.push(1_000_000);
+        cases.push((250_000, BigOrder::Shuffled));
+        cases.push((1_000_000, BigOrder::Protocol));
+        cases.push((1_000_000, BigOrder::HeaderLast));
     }
-    for n in counts {
-        let r = std::panic::catch_unwind(|| {
+    for (n, order) in cases {
+        // arrival: (fragment id, is the genuine first copy)
+        let mut ids: Vec<u64> = match order {
+            BigOrder::Protocol => (1..=n).rev().collect(),
+            BigOrder::HeaderLast => (1..=n).collect(),
+            BigOrder::Shuffled => {
+                let mut v: Vec<u64> = (1..=n).collect();
+                ctx.rng.shuffle(&mut v);
+                v
+            }
+        };
+        let mut arrival: Vec<(u64, bool)> = Vec::with_capacity(ids.len() + 200);
+        let last_pos = ids.len() - 1;
+        for (i, f) in ids.drain(..).enumerate() {
+            arrival.push((f, true));
+            if order == BigOrder::Shuffled && i % 1000 == 7 && i != last_pos {
+                arrival.push((f, false)); // a late copy with other data: must be ignored
+            }
+            if order == BigOrder::Shuffled && (i == 3 || i == last_pos / 2) {
+                arrival.push((if i == 3 { n + 1 } else { 0 }, false)); // junk ids: must be ignored
+            }
+        }
+        let piece = |f: u64| -> Vec<u8> { vec![(f % 251) as u8, (f / 251 % 256) as u8] };
+        let arrival2 = arrival.clone();
+        let r = std::panic::catch_unwind(move || {
             let mut asm = FragmentAssembler::new();
             let mut somes = 0usize;
             let mut at_last = false;
-            let mut len = 0usize;
-            for fid in (1..=n).rev() {
-                let data = vec![fid as u8];
-                let r = if fid == n { asm.start_fragment(5u64, fid, None, data) } else { asm.add_fragment(5u64, fid, data) };
+            let mut result: Option<Vec<u8>> = None;
+            let total = arrival2.len();
+            for (i, (fid, genuine)) in arrival2.iter().enumerate() {
+                let data = if *genuine { piece(*fid) } else { vec![0xee, 0xee, 0xee] };
+                let r = if *fid == n && *genuine { asm.start_fragment(5u64, *fid, Some(vec![0xc0]), data) } else { asm.add_fragment(5u64, *fid, data) };
                 if let Some(b) = r {
                     somes += 1;
-                    at_last = fid == 1;
-                    len = b.len();
+                    at_last = i == total - 1;
+                    result = Some(b);
                 }
             }
-            (somes, at_last, len, asm.pending_count())
+            (somes, at_last, result, asm.pending_count())
         });
         ctx.count("full_size_runs");
+        ctx.count(&format!("full_size_{:?}", order).to_lowercase());
+        let mut expected: Vec<u8> = vec![0xc0];
+        for f in 1..=n {
+            expected.extend_from_slice(&piece(f));
+        }
         match r {
-            Err(_) => ctx.fail("gen", &format!("assembler panicked on a {}-fragment sequence", n)),
-            Ok((1, true, len, 0)) if len as u64 == n => {}
-            Ok((somes, at_last, len, pending)) => {
-                let text = format!(
-                    "a {}-fragment sequence delivered completely in protocol order (header id {}, continuations {}..1, one byte each): returned {} time(s) (at the last fragment: {}), {} bytes, pending_count={} afterwards",
-                    n, n, n - 1, somes, at_last, len, pending
+            Err(_) => ctx.fail("c09-limit-complete", &format!("assembler panicked on a {}-fragment sequence ({:?})", n, order)),
+            Ok((1, true, Some(b), 0)) if b == expected => {}
+            Ok((somes, at_last, b, pending)) => {
+                let what = match &b {
+                    None => "nothing".to_string(),
+                    Some(b) if *b == expected => "the expected bytes".to_string(),
+                    Some(b) => {
+                        let at = b.iter().zip(expected.iter()).position(|(x, y)| x != y).unwrap_or(b.len().min(expected.len()));
+                        format!("{} bytes (expected {}), first difference at byte {}", b.len(), expected.len(), at)
+                    }
+                };
+                ctx.fail(
+                    "c09-limit-complete",
+                    &format!(
+                        "a {}-fragment sequence ({:?}: ids 1..{}, header id {} carries the count, two bytes each, cache c0): returned {} time(s) (at the last arrival: {}), {}, pending_count={} afterwards",
+                        n, order, n, n, somes, at_last, what, pending
+                    ),
                 );
-                if n > 100_000 {
-                    ctx.fail("kf-c09-count-above-vec-limit", &text);
-                } else {
-                    ctx.fail("c09-limit-complete", &text);
-                }
             }
         }
     }
 }
 
-/// two headers with different counts: the slot vector is truncated but `received_count` is kept
+/// counts above the vector limit with a handful of fragments, tied to the model: the pending-map path of `add_fragment` /
+/// `set_total_fragments` (first copy wins, ids beyond the count dropped when the header arrives, `received_count`)
+fn large_path(ctx: &mut Ctx) {
+    for _ in 0..ctx.n(300, 3000) {
+        let c: u64 = *ctx.rng.pick(&[100_001u64, 100_002, 123_456, 500_000, 999_999, 1_000_000]);
+        let pool: Vec<u64> = vec![0, 1, 2, 3, 100_000, 100_001, c - 1, c, c + 1, 1_000_000, 1_000_001, u64::MAX, ctx.rng.range(1, c)];
+        let nops = ctx.rng.range(3, 12);
+        let header_at = if ctx.rng.chance(1, 8) { u64::MAX } else { ctx.rng.below(nops) };
+        let mut ops: Vec<Op> = Vec::new();
+        for i in 0..nops {
+            if i == header_at {
+                ops.push(Op::Start { seq: 4, fid: c, cache: if ctx.rng.chance(1, 2) { Some(vec![0xc1]) } else { None }, data: ctx.rng.bytes(2) });
+                continue;
+            }
+            match ctx.rng.below(12) {
+                0 => ops.push(Op::Count),
+                1 => {
+                    // another header: the same count again, another large count, a small count, an invalid one
+                    let c2 = *ctx.rng.pick(&[c, c, c + 1, c - 1, 3, 100_000, 1_000_001, 0]);
+                    ctx.count(if c2 == c { "large_duplicate_header" } else { "large_conflicting_header" });
+                    ops.push(Op::Start { seq: 4, fid: c2, cache: Some(vec![0xc2]), data: ctx.rng.bytes(1) });
+                }
+                2 => ops.push(Op::Add { seq: 6, fid: *ctx.rng.pick(&pool), data: ctx.rng.bytes(1) }),
+                _ => ops.push(Op::Add { seq: 4, fid: *ctx.rng.pick(&pool), data: ctx.rng.bytes(2) }),
+            }
+        }
+        ops.push(Op::Count);
+        let mode = if ctx.rng.chance(1, 8) { Mode::Zero } else { Mode::Huge };
+        if mode == Mode::Zero {
+            let at = ctx.rng.below(ops.len() as u64) as usize;
+            ops.insert(at, Op::Cleanup);
+            ops.push(Op::Count);
+        }
+        tie(ctx, "gen", mode, &ops);
+        ctx.count("large_count_scenarios");
+    }
+}
+
+/// two headers with different counts for one sequence. Former witnesses of `kf-c09-conflicting-header-count` (repaired by
+/// e936302): the second header must be ignored, the sequence must still complete with the count of the first header, and
+/// what is returned must contain every fragment.
 fn conflicting_header(ctx: &mut Ctx) {
-    let ops = vec![
-        Op::Start { seq: 1, fid: 3, cache: None, data: vec![0x33] },
-        Op::Start { seq: 1, fid: 2, cache: None, data: vec![0x22] },
-        Op::Count,
-    ];
-    if let Some(outs) = tie(ctx, "gen", Mode::Huge, &ops) {
-        if let Out::Bytes(Some(b)) = &outs[1] {
+    // (first count, second count)
+    let pairs: [(u64, u64); 8] = [(3, 2), (2, 1), (2, 3), (4, 1), (3, 100_001), (100_001, 3), (5, 1_000_000), (3, 3)];
+    for (c1, c2) in pairs {
+        if c1 > 10 {
+            // a large first count cannot be completed on a line; the tie (boundaries, large_path) covers it
+            let ops = vec![
+                Op::Start { seq: 1, fid: c1, cache: None, data: vec![0x33] },
+                Op::Start { seq: 1, fid: c2, cache: None, data: vec![0x22] },
+                Op::Count,
+            ];
+            if let Some(outs) = tie(ctx, "gen", Mode::Huge, &ops) {
+                if outs[1] != Out::Bytes(None) || outs[2] != Out::Pending(1) {
+                    ctx.fail("c09-conflicting-header", &format!("start_fragment(1,{},..) then start_fragment(1,{},..): {:?}", c1, c2, outs));
+                }
+            }
+            continue;
+        }
+        // the first header, the conflicting (or, for c1 = c2, duplicate) one, then the continuations c1-1 … 1
+        let mut ops = vec![
+            Op::Start { seq: 1, fid: c1, cache: None, data: vec![0x30 + c1 as u8] },
+            Op::Start { seq: 1, fid: c2, cache: None, data: vec![0x22] },
+            Op::Count,
+        ];
+        for f in (1..c1).rev() {
+            ops.push(Op::Add { seq: 1, fid: f, data: vec![f as u8] });
+        }
+        ops.push(Op::Count);
+        ctx.count("conflicting_header_witnesses");
+        let Some(outs) = tie(ctx, "gen", Mode::Huge, &ops) else { continue };
+        // expected: nothing until the last continuation, then every fragment of the FIRST header's sequence (ascending id)
+        let mut expected: Vec<u8> = (1..c1).map(|f| f as u8).collect();
+        expected.push(0x30 + c1 as u8);
+        let n = outs.len();
+        let mut ok = outs[n - 1] == Out::Pending(0) && outs[2] == Out::Pending(1);
+        for (i, o) in outs.iter().enumerate() {
+            if i == 2 || i == n - 1 {
+                continue;
+            }
+            let want = if i == n - 2 { Out::Bytes(Some(expected.clone())) } else { Out::Bytes(None) };
+            if *o != want {
+                ok = false;
+            }
+        }
+        if !ok {
             ctx.fail(
-                "kf-c09-conflicting-header-count",
+                "c09-conflicting-header",
                 &format!(
-                    "start_fragment(1,3,None,[33]) then start_fragment(1,2,None,[22]) returns Some({}) although fragment 1 never arrived",
-                    hex(b)
+                    "start_fragment(1,{},None,[{:02x}]) then start_fragment(1,{},None,[22]) then add_fragment(1,k,[k]) for k = {}..1: outputs {} (expected nothing until the last continuation, then {})",
+                    c1,
+                    0x30 + c1 as u8,
+                    c2,
+                    c1 - 1,
+                    outs.iter().map(outword).collect::<Vec<_>>().join(","),
+                    hex(&expected)
                 ),
             );
         }
@@ -698,7 +898,10 @@ fn expiry(ctx: &mut Ctx) {
     }
 }
 
-/// `cleanup_expired` has to be called by whoever owns the assembler, or incomplete sequences are held for ever
+/// `cleanup_expired` has to be called by whoever owns the assembler, or incomplete sequences are held for ever.
+/// Former witness of `kf-c09-cleanup-never-called` (repaired by f40d0e7): every non-test source file that constructs a
+/// `FragmentAssembler` must call `cleanup_expired()` on it. (Where exactly — once per received frame — is extracted by
+/// tools/gen_misc.py and is a proof obligation: `C09_connection_expires_on_every_frame`.)
 fn cleanup_call_sites(ctx: &mut Ctx) {
     let repo = std::env::var("EDP_REPO").unwrap_or_else(|_| "/repo".to_string());
     let mut files: Vec<std::path::PathBuf> = Vec::new();
@@ -716,31 +919,97 @@ fn cleanup_call_sites(ctx: &mut Ctx) {
             }
         }
     }
-    let mut owners = 0;
-    let mut callers = 0;
+    ctx.add("static_source_files_scanned", files.len() as u64);
+    if files.is_empty() {
+        ctx.count("static_scan_unavailable");
+        return;
+    }
     for f in &files {
         if f.ends_with("fragmentation.rs") {
             continue;
         }
         let Ok(src) = std::fs::read_to_string(f) else { continue };
-        if src.contains("FragmentAssembler::") {
-            owners += 1;
-        }
-        if src.contains(".cleanup_expired(") {
-            callers += 1;
+        let code: String = src.lines().filter(|l| !l.trim_start().starts_with("//")).collect::<Vec<_>>().join("\n");
+        if code.contains("FragmentAssembler::") {
+            ctx.count("static_assembler_owners");
+            if !code.contains(".cleanup_expired(") {
+                ctx.fail(
+                    "c09-cleanup-not-called",
+                    &format!(
+                        "{} constructs a FragmentAssembler but never calls cleanup_expired(): an incomplete sequence is held until the owner is dropped",
+                        f.display()
+                    ),
+                );
+            }
         }
     }
-    ctx.add("static_source_files_scanned", files.len() as u64);
-    if files.is_empty() {
-        ctx.count("static_scan_unavailable");
-    } else if owners > 0 && callers == 0 {
-        ctx.fail(
-            "kf-c09-cleanup-never-called",
-            &format!(
-                "{} non-test source file(s) construct a FragmentAssembler (connection.rs) but none calls cleanup_expired(): an incomplete sequence is held until the connection is dropped",
-                owners
-            ),
-        );
+}
+
+/// a connection's frame loop against the real clock: every operation is a received frame (`cleanup_expired()` first).
+/// After every frame the assembler must hold only sequences touched within the timeout: checked through `pending_count`
+/// (tied to the model) and, harness-side, against the set of sequences the harness itself knows to be unexpired.
+fn frame_expiry(ctx: &mut Ctx) {
+    // zero timeout: every frame drops whatever was touched before it, so after a fragment frame at most that frame's
+    // sequence is held, after any other frame nothing
+    for _ in 0..ctx.n(150, 1500) {
+        let mut ops = Vec::new();
+        for _ in 0..ctx.rng.range(2, 9) {
+            let seq = ctx.rng.below(3);
+            let inner = match ctx.rng.below(6) {
+                0 => None,
+                1 | 2 => Some(Box::new(Op::Start { seq, fid: ctx.rng.range(1, 4), cache: None, data: ctx.rng.bytes(1) })),
+                _ => Some(Box::new(Op::Add { seq, fid: ctx.rng.range(1, 4), data: ctx.rng.bytes(1) })),
+            };
+            ops.push(Op::Frame(inner));
+            ops.push(Op::Count);
+        }
+        ctx.count("frame_expiry_zero_timeout_scenarios");
+        let Some(outs) = tie(ctx, "gen", Mode::Zero, &ops) else { continue };
+        for i in (0..ops.len()).step_by(2) {
+            let bound = match (&ops[i], &outs[i]) {
+                (Op::Frame(Some(_)), Out::Bytes(None)) => 1,
+                _ => 0,
+            };
+            if let Out::Pending(k) = outs[i + 1] {
+                if k > bound {
+                    ctx.fail(
+                        "c09-frame-expiry",
+                        &format!("zero timeout, frame {}: {} sequence(s) held after the frame, at most {} can be unexpired; run: {:?}", i / 2, k, bound, ops),
+                    );
+                }
+            }
+        }
+    }
+    // 20 ms timeout, 60 ms gaps: a sequence untouched across a gap must be gone after the next frame of ANOTHER sequence
+    for _ in 0..ctx.n(4, 40) {
+        let a = ctx.rng.below(100);
+        let ops = vec![
+            Op::Frame(Some(Box::new(Op::Start { seq: a, fid: 3, cache: None, data: vec![1] }))),
+            Op::Frame(Some(Box::new(Op::Add { seq: a + 1, fid: 2, data: vec![2] }))),
+            Op::Count,
+            Op::Sleep,
+            Op::Frame(Some(Box::new(Op::Add { seq: a + 1, fid: 1, data: vec![3] }))),
+            Op::Count,
+            Op::Sleep,
+            Op::Frame(None),
+            Op::Count,
+            // the expired header is gone: its continuations start a new, header-less entry instead of completing
+            Op::Frame(Some(Box::new(Op::Add { seq: a, fid: 2, data: vec![4] }))),
+            Op::Frame(Some(Box::new(Op::Add { seq: a, fid: 1, data: vec![5] }))),
+            Op::Count,
+        ];
+        ctx.count("frame_expiry_real_time_scenarios");
+        let Some(outs) = tie(ctx, "gen", Mode::Timed, &ops) else { continue };
+        // (`Sleep` has no output entry)
+        let want = [(2usize, 2usize), (4, 1), (6, 0), (9, 1)];
+        for (i, k) in want {
+            if outs[i] != Out::Pending(k) {
+                ctx.fail("c09-frame-expiry", &format!("20 ms timeout, 60 ms gaps: pending_count at op {} is {:?}, expected {}; outputs {:?}", i, outs[i], k, outs));
+            }
+        }
+        if outs[7] != Out::Bytes(None) || outs[8] != Out::Bytes(None) {
+            ctx.fail("c09-frame-expiry", &format!("a sequence whose header expired was completed by late continuations: {:?} {:?}", outs[7], outs[8]));
+        }
     }
 }
 
@@ -753,8 +1022,10 @@ pub fn run(ctx: &mut Ctx) {
         interleaved(ctx, "gen");
     }
     boundaries(ctx);
+    large_path(ctx);
     conflicting_header(ctx);
     expiry(ctx);
+    frame_expiry(ctx);
     big_runs(ctx);
     cleanup_call_sites(ctx);
 }
